@@ -17,7 +17,8 @@ use serde::{Deserialize, Serialize};
 
 use crate::core::{bump, bump_by, catch, Caught, RunOutcome, Stats, Violation};
 use crate::faultio::{gen_io_plan, FaultyWriter, IoPlan};
-use crate::model::canon::{canon64, distinct_choice_nodes, recreate, walk64};
+use crate::model::canon::{canon_tt, distinct_choice_nodes, recreate, walk_tt};
+use crate::model::tt::TT;
 use crate::model::dotread::{parse_dot, DotGraph, Term};
 use crate::model::fast::{self, Printer, F};
 use crate::model::tt::low_mask;
@@ -50,7 +51,8 @@ const WEIRD_NAMES: [&str; 10] = [
 
 pub fn gen_plan(rng: &mut Prng) -> DotPlan {
     let named = rng.coin();
-    let nvars = rng.range(1, 6);
+    // one run in twelve exports a big diagram (7-10 variables, hundreds of nodes)
+    let nvars = if rng.chance(1, 12) { rng.range(7, 10) } else { rng.range(1, 6) };
     let mut names: Vec<String> = fast::NAME_POOL.iter().map(|s| s.to_string()).collect();
     rng.shuffle(&mut names);
     names.truncate(nvars);
@@ -114,38 +116,67 @@ fn viol(oracle: &str, site: &str, detail: String) -> Violation {
     }
 }
 
-fn build<S: BDDSymbol>(env: &BDDEnv<S>, tt: u64, n: usize, sym: &dyn Fn(usize) -> S, route: u8) -> Rc<BDD<S>> {
+/// The function a plan seed stands for: up to 6 variables the seed *is* the truth table; above,
+/// the table is expanded from the seed (density chosen by the seed's low bits).
+pub fn func_tt(seed: u64, n: usize) -> TT {
+    if n <= 6 {
+        return TT::from_u64(n, seed);
+    }
+    let mut t = TT::konst(n, false);
+    let mut st = seed;
+    let mode = seed & 3;
+    for w in t.w.iter_mut() {
+        let a = crate::prng::splitmix64(&mut st);
+        let b = crate::prng::splitmix64(&mut st);
+        *w = match mode {
+            0 => a,
+            1 => a & b,
+            2 => a | b,
+            _ => {
+                if a & 7 == 0 {
+                    b
+                } else if a & 8 == 0 {
+                    0
+                } else {
+                    u64::MAX
+                }
+            }
+        };
+    }
+    if seed == 0 {
+        return TT::konst(n, false);
+    }
+    if seed == u64::MAX {
+        return TT::konst(n, true);
+    }
+    t
+}
+
+fn build<S: BDDSymbol>(env: &BDDEnv<S>, tt: &TT, sym: &dyn Fn(usize) -> S, route: u8) -> Rc<BDD<S>> {
     if route == 0 {
-        recreate(env, &canon64::<S>(tt, n, sym))
+        recreate(env, &canon_tt::<S>(tt, sym))
     } else {
-        // Shannon expansion through the public connectives, top variable last
-        fn go<S: BDDSymbol>(env: &BDDEnv<S>, tt: u64, level: usize, n: usize, sym: &dyn Fn(usize) -> S) -> Rc<BDD<S>> {
-            let full = low_mask(n);
-            if tt & full == 0 {
+        // Shannon expansion through the public connectives
+        fn go<S: BDDSymbol>(env: &BDDEnv<S>, tt: &TT, level: usize, sym: &dyn Fn(usize) -> S) -> Rc<BDD<S>> {
+            if tt.is_false() {
                 return env.mk_const(false);
             }
-            if tt & full == full {
+            if tt.is_true() {
                 return env.mk_const(true);
             }
-            if level >= n {
-                return env.mk_const(tt & 1 == 1);
+            let mut i = level;
+            while i < tt.n && !tt.depends_on(i) {
+                i += 1;
             }
-            let m = crate::model::tt::var64(level, n);
-            let sh = 1usize << level;
-            let hi = {
-                let x = tt & m;
-                x | (x >> sh)
-            };
-            let lo = {
-                let x = tt & !m & full;
-                x | (x << sh)
-            };
-            let h = go(env, hi, level + 1, n, sym);
-            let l = go(env, lo, level + 1, n, sym);
-            let v = env.var(sym(level));
+            if i >= tt.n {
+                return env.mk_const(tt.get(0));
+            }
+            let h = go(env, &tt.cofactor(i, true), i + 1, sym);
+            let l = go(env, &tt.cofactor(i, false), i + 1, sym);
+            let v = env.var(sym(i));
             env.or(env.and(Rc::clone(&v), h), env.and(env.not(v), l))
         }
-        go(env, tt, 0, n, sym)
+        go(env, tt, 0, sym)
     }
 }
 
@@ -175,10 +206,11 @@ fn judge_diagram<S: BDDSymbol>(plan: &DotPlan, w: &World<S>, stats: &mut Stats, 
             junk.push(vec![0x5Au8; *s as usize]);
             bump(stats, "fault.alloc-shift");
         }
-        keep.push(build(&env, *h, n, &*w.sym, (i % 2) as u8));
+        keep.push(build(&env, &func_tt(*h, n), &*w.sym, (i % 2) as u8));
     }
-    let d = build(&env, plan.target, n, &*w.sym, plan.route);
-    if walk64(&d, n, &*w.idx) != Ok(plan.target & low_mask(n)) {
+    let target = func_tt(plan.target, n);
+    let d = build(&env, &target, &*w.sym, plan.route);
+    if walk_tt(&d, n, &*w.idx).as_ref() != Ok(&target) {
         // not this property's business (C03/C13); do not judge the export of a wrong diagram
         return;
     }
@@ -211,37 +243,55 @@ fn judge_diagram<S: BDDSymbol>(plan: &DotPlan, w: &World<S>, stats: &mut Stats, 
     }
     let root = roots[0].to_string();
     let labels: Vec<String> = (0..n).map(|i| (w.label)(i)).collect();
-    let full = low_mask(n);
-    let mut got = 0u64;
+    // index: node id -> (variable index, T target, F target); built once, evaluated 2^n times
+    let mut index: std::collections::HashMap<&str, (usize, &str, &str)> = std::collections::HashMap::new();
+    for (id, label) in g.nodes.iter().filter(|(id, _)| id != "n_true" && id != "n_false") {
+        let Some(vi) = labels.iter().position(|l| l == label) else {
+            vs.push(viol("D3", "evaluation", format!("test node labelled {label:?} is not a variable in play")));
+            return;
+        };
+        let outs = g.out(id);
+        let t: Vec<&&str> = outs.iter().filter(|(l, _)| *l == "T").map(|(_, t)| t).collect();
+        let f: Vec<&&str> = outs.iter().filter(|(l, _)| *l == "F").map(|(_, t)| t).collect();
+        if t.len() != 1 || f.len() != 1 || outs.len() != 2 {
+            vs.push(viol("D3", "edges", format!("test node {id} has {} T-edges and {} F-edges", t.len(), f.len())));
+            return;
+        }
+        index.insert(id.as_str(), (vi, *t[0], *f[0]));
+    }
+    let mut got = TT::konst(n, false);
     for a in 0..(1usize << n) {
-        let value_of = |label: &str| -> Option<bool> { labels.iter().position(|l| l == label).map(|i| (a >> i) & 1 == 1) };
-        match g.eval_decision(&root, &value_of) {
-            Ok(true) => got |= 1u64 << a,
-            Ok(false) => {}
-            Err(e) => {
-                vs.push(viol("D3", "evaluation", format!("read-back graph cannot be evaluated: {e}")));
+        let mut cur: &str = &root;
+        let mut steps = 0;
+        loop {
+            if cur == "n_true" {
+                got.set(a, true);
+                break;
+            }
+            if cur == "n_false" {
+                break;
+            }
+            let Some((vi, t, f)) = index.get(cur) else {
+                vs.push(viol("D3", "evaluation", format!("edge into undeclared node {cur}")));
+                return;
+            };
+            cur = if (a >> vi) & 1 == 1 { t } else { f };
+            steps += 1;
+            if steps > 4096 {
+                vs.push(viol("D3", "evaluation", "cycle in the exported graph".into()));
                 return;
             }
         }
     }
-    if got != plan.target & full {
-        vs.push(viol("D3", "function", format!("read-back graph denotes {got:#x}, the diagram denotes {:#x}", plan.target & full)));
+    if got != target {
+        vs.push(viol("D3", "function", format!("read-back graph denotes a different function than the diagram ({} vs {} satisfying assignments of {n} variables)", got.count_ones(), target.count_ones())));
     }
     let test_nodes = g.nodes.iter().filter(|(id, _)| id != "n_true" && id != "n_false").count();
     let want_nodes = distinct_choice_nodes(&d);
     if test_nodes != want_nodes {
         vs.push(viol("D3", "node-count", format!("{test_nodes} test nodes declared, the diagram has {want_nodes} distinct ones")));
     }
-    for (id, _) in g.nodes.iter().filter(|(id, _)| id != "n_true" && id != "n_false") {
-        let outs = g.out(id);
-        let t = outs.iter().filter(|(l, _)| *l == "T").count();
-        let f = outs.iter().filter(|(l, _)| *l == "F").count();
-        if t != 1 || f != 1 || outs.len() != 2 {
-            vs.push(viol("D3", "edges", format!("test node {id} has {t} T-edges and {f} F-edges")));
-            break;
-        }
-    }
-    if plan.target & full == 0 || plan.target & full == full {
+    if target.is_false() || target.is_true() {
         bump(stats, "probe.constant_diagram");
     }
     if labels.iter().any(|l| l.chars().any(|c| !c.is_ascii_alphanumeric() && c != '_')) {
@@ -312,9 +362,9 @@ fn judge_diagram<S: BDDSymbol>(plan: &DotPlan, w: &World<S>, stats: &mut Stats, 
     }
     let mut keep2 = Vec::new();
     for h in plan.history.iter().rev().take(3) {
-        keep2.push(build(&env2, !*h, n, &*w.sym, 1));
+        keep2.push(build(&env2, &func_tt(!*h, n), &*w.sym, 1));
     }
-    let d2 = build(&env2, plan.target, n, &*w.sym, 1 - plan.route);
+    let d2 = build(&env2, &target, &*w.sym, 1 - plan.route);
     if let Ok(b2) = render(&d2, TruthTableEntry::Any) {
         if let Ok(g2) = parse_dot(&String::from_utf8_lossy(&b2)) {
             let r2 = g2.roots();
@@ -538,9 +588,13 @@ pub fn execute(plan: &DotPlan) -> RunOutcome {
     }
     judge_tree(plan, &mut stats, &mut vs, &mut trace);
     let faults = stats.iter().filter(|(k, _)| k.starts_with("fault.")).map(|(_, v)| *v).sum::<u64>();
-    out.nontrivial = faults > 0 && plan.target & low_mask(plan.nvars) != 0 && plan.target & low_mask(plan.nvars) != low_mask(plan.nvars);
+    let tfun = func_tt(plan.target, plan.nvars);
+    out.nontrivial = faults > 0 && !tfun.is_false() && !tfun.is_true();
+    if plan.nvars > 6 {
+        bump(&mut stats, "probe.big_diagram");
+    }
     out.steps = 1;
-    out.state_digests.push(mix(&[plan.nvars as u64, plan.target & low_mask(plan.nvars)]));
+    out.state_digests.push(tfun.digest());
     trace.push(vs.len() as u64);
     out.trace_digest = mix(&trace);
     // one violation per oracle/site is enough
